@@ -38,21 +38,22 @@ def _failing_producer_cls():
 
     class FailingProducer(DateTimeProducerBase):
         """test double: delegates to `inner`, raises on the listed call indices (0-based, per job copy)"""
-        __slots__ = ('_inner', '_fail', '_n')
+        __slots__ = ('_inner', '_fail', '_from', '_n')
 
-        def __init__(self, inner, fail) -> None:
+        def __init__(self, inner, fail, fail_from=None) -> None:
             super().__init__()
             self._inner = inner
             self._fail = frozenset(fail)
+            self._from = fail_from
             self._n = 0
 
         def copy(self):
-            return self.__class__(self._inner.copy(), self._fail)
+            return self.__class__(self._inner.copy(), self._fail, self._from)
 
         def get_next(self, dt):
             n = self._n
             self._n += 1
-            if n in self._fail:
+            if n in self._fail or (self._from is not None and n >= self._from):
                 raise TriggerFailed()
             return self._inner.get_next(dt)
 
@@ -82,7 +83,13 @@ class CbObj:
 
 
 def parse_csv(s: str) -> list[int]:
-    return [] if s == '-' else [int(x) for x in s.split(',') if x]
+    return [] if s == '-' else [int(x) for x in s.split(',') if x and not x.startswith('p')]
+
+
+def parse_perm(s: str) -> int | None:
+    """`p<k>` in a trigger failure list: every call with index >= k raises"""
+    ks = [int(x[1:]) for x in s.split(',') if x.startswith('p')]
+    return min(ks) if ks else None
 
 
 class SchedImpl:
@@ -206,8 +213,9 @@ class SchedImpl:
                             c = builder.countdown(TimeDelta(nanoseconds=secs), fn, **kw)
                         else:
                             trig = build_trigger(self.specs[h])
-                            if tf:
-                                trig = TriggerObject(FailingProducer(trig._producer, tf))
+                            perm = parse_perm(tok[-1])
+                            if tf or perm is not None:
+                                trig = TriggerObject(FailingProducer(trig._producer, tf, perm))
                             c = builder.at(trig, fn, **kw)
                         self.controls[h] = c
                         self.handle_of[id(c._job)] = h
@@ -266,4 +274,14 @@ class SchedImpl:
             po.uniform = old_uniform
 
     def run(self, lines: list[str]) -> list[list[str]]:
-        return run_virtual(lambda loop: self._run(loop, lines), self.epoch_ns)
+        import signal
+
+        def _alarm(*_a):
+            raise HarnessError('the scheduler does not return (watchdog)')
+        old = signal.signal(signal.SIGALRM, _alarm)
+        signal.setitimer(signal.ITIMER_REAL, 60.0)
+        try:
+            return run_virtual(lambda loop: self._run(loop, lines), self.epoch_ns)
+        finally:
+            signal.setitimer(signal.ITIMER_REAL, 0)
+            signal.signal(signal.SIGALRM, old)
